@@ -443,6 +443,7 @@ namespace Dune
      */
     template<class TIN, class TOUT = TIN>
     PseudoFuture<TOUT> iallgather(TIN&& data_in, TOUT&& data_out){
+      *(data_out.begin()) = std::forward<TIN>(data_in);
       return {std::forward<TOUT>(data_out)};
     }
 
